@@ -56,6 +56,9 @@ type catchEvent struct {
 	// running is set once the node's goroutine drains mch; until then nobody
 	// listens and events are dropped instead of piling up in the inbox
 	running atomic.Bool
+	// gone is closed when the node's goroutine ends: a sender that found it
+	// running a moment ago is not left waiting at a full inbox
+	gone chan struct{}
 }
 
 func newCatchEvent(wr *wiring, element *schema.CatchEvent) (evt *catchEvent, err error) {
@@ -64,6 +67,7 @@ func newCatchEvent(wr *wiring, element *schema.CatchEvent) (evt *catchEvent, err
 		element:         element,
 		mch:             make(chan imessage, len(wr.incoming)*2+1),
 		activated:       atomic.Bool{},
+		gone:            make(chan struct{}),
 		awaitingActions: make([]chan IAction, 0),
 		satisfier:       logic.NewCatchEventSatisfier(element, wr.eventDefinitionInstanceBuilder),
 	}
@@ -80,6 +84,7 @@ func (evt *catchEvent) run(ctx context.Context, sender tracing.ISenderHandle) {
 	// nobody drains the inbox any more: events are dropped instead of blocking
 	// their sender
 	defer evt.running.Store(false)
+	defer close(evt.gone)
 
 	for {
 		select {
@@ -136,7 +141,11 @@ func (evt *catchEvent) ConsumeEvent(ev event.IEvent) (result event.ConsumptionRe
 		result = event.Consumed
 		return
 	}
-	evt.mch <- processEventMessage{event: ev}
+	select {
+	case evt.mch <- processEventMessage{event: ev}:
+	case <-evt.gone:
+		// the node ended with the instance in the meantime
+	}
 	result = event.Consumed
 	return
 }
@@ -166,7 +175,10 @@ func (evt *catchEvent) NextAction(ctx context.Context, flow Flow) chan IAction {
 // reset ends the listening of a boundary event whose activity is over
 func (evt *catchEvent) reset() {
 	if evt.running.Load() {
-		evt.mch <- resetMessage{}
+		select {
+		case evt.mch <- resetMessage{}:
+		case <-evt.gone:
+		}
 	}
 }
 
